@@ -19,7 +19,7 @@ from pandera.typing.polars import Series
 Base = pa.DataFrameModel
 """
 
-FIELD_SRC = {"omitted": None, "default": "pa.Field()", "ge0": "pa.Field(ge=0)", "ge1_le5": "pa.Field(ge=1, le=5)",
+FIELD_SRC = {"omitted": None, "default": "pa.Field()", "ge0": "pa.Field(ge=0)", "ge0_nona": "pa.Field(ge=0, nullable=True, ignore_na=False)", "ge1_le5": "pa.Field(ge=1, le=5)",
              "nullable_coerce": "pa.Field(nullable=True, coerce=True)", "alias_x": "pa.Field(alias='x')",
              "unique": "pa.Field(unique=True)"}
 CFG_SRC = {"strict": {"T": "True", "F": "False", "filter": "'filter'"}, "coerce": {"T": "True", "F": "False"},
@@ -139,9 +139,9 @@ def _parse_sig(fn, backend: str):
 def p_check(c, backend: str, frame_level: bool) -> Dict[str, Any]:
     st = c.statistics or {}
     if c.name == "greater_than_or_equal_to":
-        return {"k": "ge", "arg": st.get("min_value")}
+        return {"k": "ge", "arg": st.get("min_value"), "ina": bool(c.ignore_na)}
     if c.name == "less_than_or_equal_to":
-        return {"k": "le", "arg": st.get("max_value")}
+        return {"k": "le", "arg": st.get("max_value"), "ina": bool(c.ignore_na)}
     sig = (_sig_pandas if backend == "pandas" else _sig_polars)(c._check_fn, frame_level)
     table = DF_SIG if frame_level else CHECK_SIG
     return {"k": "custom", "pred": table.get(str(sig), "other:%s" % (sig,)), "name": c.name}
@@ -181,9 +181,9 @@ def build_object_api(rec: Dict[str, Any], backend: str, ns: Dict[str, Any], clsn
         out = []
         for c in cs:
             if c["k"] == "ge":
-                out.append(pa.Check.ge(c["arg"]))
+                out.append(pa.Check.ge(c["arg"], ignore_na=c["ina"]))
             elif c["k"] == "le":
-                out.append(pa.Check.le(c["arg"]))
+                out.append(pa.Check.le(c["arg"], ignore_na=c["ina"]))
             else:
                 out.append(pa.Check((DFPRED if frame else PRED)[c["pred"]], name=c["name"]))
         return out
